@@ -24,11 +24,24 @@ type liveCase struct {
 	Silent   int     `json:"silent"`
 	NilVoter int     `json:"nil_voter"`
 	Heights  int64   `json:"heights"`
+	Late     int     `json:"late_joiner"` // -1 = none
+	Crasher  int     `json:"crasher"`
+	JoinAt   int64   `json:"join_after"`
 }
 
 func genLive(c int64) liveCase {
 	rng := lib.Rand("c12-live", c)
-	lc := liveCase{Case: c, N: 4, Silent: -1, NilVoter: -1, Heights: int64(lib.Pick(6, 12))}
+	lc := liveCase{Case: c, N: 4, Silent: -1, NilVoter: -1, Heights: int64(lib.Pick(6, 12)), Late: -1, Crasher: -1}
+	if c%4 == 3 {
+		// four equal validators: one is cut off until the others have committed two heights, then
+		// another one crashes and the cut-off one (exactly two heights behind) is connected: the rest
+		// can only go on when it catches up through the gossip routines
+		lc.Powers = []int64{1, 1, 1, 1}
+		p := rng.Perm(4)
+		lc.Late, lc.Crasher, lc.JoinAt = p[0], p[1], 2
+		lc.Heights = 5
+		return lc
+	}
 	if c%3 == 2 {
 		lc.N = 5
 	}
@@ -65,7 +78,7 @@ func liveChild(args []string) {
 	dir := lib.Scratch("C12-live")
 	defer os.RemoveAll(dir)
 	res := sim.RunLive(sim.LiveConfig{N: lc.N, Powers: lc.Powers, Dir: dir, Label: fmt.Sprintf("c12-%d", lc.Case), Heights: lc.Heights,
-		Watchdog: 4 * time.Minute, Silent: lc.Silent, NilVoter: lc.NilVoter, MaxRounds: 25})
+		Watchdog: 4 * time.Minute, Silent: lc.Silent, NilVoter: lc.NilVoter, MaxRounds: 25, LateJoiner: lc.Late, Crasher: lc.Crasher, JoinAfter: lc.JoinAt, GossipBound: 3000})
 	jb, _ := json.Marshal(res)
 	ioutil.WriteFile(args[1], jb, 0644)
 	os.Exit(0)
@@ -119,6 +132,14 @@ func runLive(run *lib.Run) {
 		if res.Fork != "" {
 			run.Violation("live-fork", fmt.Sprintf("live case %d: %s", i, res.Fork), lc)
 			return
+		}
+		if res.CatchUpBound != "" {
+			run.Violation("live-late-joiner-not-served", fmt.Sprintf("live case %d: %s", i, res.CatchUpBound), map[string]interface{}{"case": lc, "result": res})
+			return
+		}
+		if lc.Late >= 0 {
+			run.Count("live_late_join_cases", 1)
+			run.Count("live_late_join_catch_up_gossip_iterations", res.CatchUpIters)
 		}
 		if res.RoundBound != "" {
 			run.Violation("live-no-progress-within-round-bound", fmt.Sprintf("live case %d (silent %d, nil-voter %d): %s", i, lc.Silent, lc.NilVoter, res.RoundBound), map[string]interface{}{"case": lc, "result": res})
